@@ -6,10 +6,14 @@ package serializer
 // an archive (precomputed search sets); results compared with the sequential results through memo keys.
 
 import (
+	"bytes"
 	"fmt"
 	"math/rand"
+	"strings"
 	"sync"
 	"testing"
+
+	"github.com/google/licenseclassifier"
 )
 
 func TestVerifLicConc(t *testing.T) {
@@ -21,17 +25,35 @@ func TestVerifLicConc(t *testing.T) {
 	for _, i := range rng.Perm(len(all))[:14] {
 		files = append(files, all[i])
 	}
-	l, err := lcArchive(files)
-	if err != nil {
+	// one archive, loaded several times: the sequential reference runs on its own instance, and every concurrent round
+	// on a freshly loaded one, so that whatever an instance builds on first use is built by racing calls
+	var abuf bytes.Buffer
+	if err := ArchiveLicenses(files, &abuf); err != nil {
 		rec.out.Emit(map[string]interface{}{"ev": "loadfail", "err": err.Error()})
 		return
 	}
+	load := func() *licenseclassifier.License {
+		x, err := licenseclassifier.New(licenseclassifier.DefaultConfidenceThreshold, licenseclassifier.ArchiveBytes(abuf.Bytes()))
+		if err != nil {
+			panic(err)
+		}
+		return x
+	}
+	l := load()
 	keys := rec.keys("lic", l)
 	al := lcAliases(keys)
 	callers := vuEnvInt("VERIF_CALLERS", 4)
 	var qs []string
 	for i := 0; i < callers; i++ {
 		qs = append(qs, "Some preamble about the software license.\n"+lcRead(files[rng.Intn(len(files))])+"\ntrailing words about the terms")
+	}
+	// damaged copies: nothing is found verbatim, the precomputed search sets are searched
+	for i := 0; i < callers; i++ {
+		ws := strings.Fields(lcRead(files[rng.Intn(len(files))]))
+		for k := 7; k < len(ws); k += 15 {
+			ws[k] = "zzqx"
+		}
+		qs = append(qs, "Some preamble.\n"+strings.Join(ws, " ")+"\ntrailing words")
 	}
 	// texts for which there is no candidate at all (far shorter than every license, out of vocabulary): the calls that
 	// return the "nothing found" result must be as independent of each other as the others
@@ -40,7 +62,8 @@ func TestVerifLicConc(t *testing.T) {
 		rec.mm("lic", l, al, q, true, fmt.Sprintf("mm|%d", i), fmt.Sprintf("q%d", i))
 		rec.nm("lic", l, q, "", false, fmt.Sprintf("nm|%d", i), fmt.Sprintf("q%d", i))
 	}
-	for round := 0; round < 3; round++ {
+	for round := 0; round < 6; round++ {
+		l := load() // cold
 		var wg sync.WaitGroup
 		var mu sync.Mutex
 		for i, q := range qs {
